@@ -32,6 +32,16 @@ NegacyclicMul(a, b, p) ==
                    IF i <= k THEN (acc + a[i] * b[k - i + 1]) % p
                    ELSE (acc + p * p - a[i] * b[n + k - i + 1]) % p,
                  0, 1, n))
+\* the same over Z (no reduction): exact negacyclic product of small integer vectors
+NegacyclicMulZ(a, b) ==
+  LET n == Len(a)
+  IN Arr(n, LAMBDA k :
+       FoldRange(LAMBDA acc, i :
+                   IF i <= k THEN acc + a[i] * b[k - i + 1] ELSE acc - a[i] * b[n + k - i + 1],
+                 0, 1, n))
+VecAdd(a, b) == Arr(Len(a), LAMBDA i : a[i] + b[i])
+VecSub(a, b) == Arr(Len(a), LAMBDA i : a[i] - b[i])
+VecNeg(a) == Arr(Len(a), LAMBDA i : -a[i])
 PolyAdd(a, b, p) == Arr(Len(a), LAMBDA i : (a[i] + b[i]) % p)
 PolySub(a, b, p) == Arr(Len(a), LAMBDA i : (a[i] - b[i]) % p)
 \* Hermitian adjoint a*(x) = a(1/x): a*_0 = a_0, a*_i = -a_{n-i}
